@@ -175,6 +175,28 @@ func TestVerif_C36(t *testing.T) {
 			}
 		}
 	}
+	// (a2) boundary LENGTHS: repository names up to 255 characters, tags up to 128, digests of exactly 64 characters and
+	// their neighbours, the shortest blob names, long identity names and deep roots
+	{
+		rep := strings.Repeat
+		longRoot := "/" + rep("d/", 200) + rep("r", 255)
+		for _, root := range []string{"/r", "/", "", longRoot, longRoot + "/"} {
+			for _, repo := range []string{"a", rep("r", 255), rep("a", 127) + "/" + rep("b", 127), rep("x/", 127) + "y"} {
+				for _, tag := range []string{"a", rep("t", 127), rep("t", 128), rep("t", 129), "_" + rep(".", 127)} {
+					rt("tag", root, repo+":"+tag)
+					tr.Count("boundary_tag", 1)
+				}
+				rt("ident", root, repo)
+				rt("ident", root, repo+"/"+rep("z", 4096))
+				tr.Count("boundary_ident", 2)
+			}
+			h64 := rep("0123456789abcdef", 4)
+			for _, n := range []string{"", "a", "ab", "abc", "abcd", h64[:63], h64, h64 + "0", rep(h64, 4), strings.ToUpper(h64), "ab" + rep("c", 4096)} {
+				rt("shard", root, n)
+				tr.Count("boundary_shard", 1)
+			}
+		}
+	}
 	// (b) exhaustive: roots and names over a tiny alphabet (identity scheme and path.Join itself)
 	alpha := []string{"/", ".", "a", "b"}
 	var all []string
